@@ -54,7 +54,7 @@ type override struct {
 	Craft string `json:"craft"`
 }
 
-var envActs = map[string]bool{"Connect": true, "CSend": true, "CFin": true, "TSend": true, "TFin": true, "TRst": true, "Tick": true, "CloseListener": true}
+var envActs = map[string]bool{"TClose": true, "CRst": true, "Connect": true, "CSend": true, "CFin": true, "TSend": true, "TFin": true, "TRst": true, "Tick": true, "CloseListener": true}
 var obsActs = map[string]bool{"Open": true, "MAuth": true, "MProbe": true, "MClosed": true, "Dial": true, "TRecv": true, "TSawFin": true,
 	"CRecv": true, "CSawFin": true, "CClose": true, "ServeReturn": true}
 
@@ -95,6 +95,10 @@ type snap struct {
 	AddrDoneAt int64    `json:"addrDoneAt"`
 	StallKinds []string `json:"stallKinds"`
 	Cancelled  bool     `json:"cancelled"`
+	Tcl        string   `json:"tcl"`
+	Crst       bool     `json:"crst"`
+	WCPL       int64    `json:"wcpl"`
+	AfterClose int      `json:"afterClose"`
 }
 
 // scriptStep: one environment action as performed on (or affecting) this connection, with how much each observer of
@@ -157,6 +161,10 @@ type caseRec struct {
 	Stalls     []string     `json:"stalls"`
 	Hung       bool         `json:"hung"`
 	Handled    bool         `json:"handled"`
+	Tcl        string       `json:"tcl"`
+	Crst       bool         `json:"crst"`
+	WCPL       int64        `json:"wcpl"`
+	AfterClose int          `json:"afterClose"`
 	Cancelled  bool         `json:"cancelled"`
 	Connected  bool         `json:"connected"`
 	Reset      bool         `json:"reset"` // never accepted: the listener was closed first
@@ -194,6 +202,11 @@ type cconn struct {
 	hasBadSent                                bool
 	cancelled                                 bool
 	slow                                      bool
+	tcl                                       string
+	ndataSent                                 int
+	crst                                      bool
+	wcpl                                      int64
+	afterClose                                int
 	refuseFd                                  int
 }
 
@@ -434,7 +447,7 @@ func runBehaviour(idx int, beh behaviour, opt options) ([]*caseRec, *behRec) {
 			}
 			req = fmt.Sprintf("%s:%d", host, 7000+c)
 		}
-		cc := &cconn{cfinAt: -1, preDoneAt: -1, lastSendAt: -1, addrDoneAt: -1, stallKinds: []string{}}
+		cc := &cconn{cfinAt: -1, preDoneAt: -1, lastSendAt: -1, addrDoneAt: -1, stallKinds: []string{}, tcl: "no"}
 		cc.plan = buildPlan(rng, c, sc.Hs, sc.Tk, keys[pos], kinds[c], ntgt[c], req, atyp, beh.Ov, func(p *connPlan) { primes = append(primes, p) })
 		cc.plan.KeyPos = pos
 		cc.slow = beh.Ov != nil && beh.Ov.Craft == "slow"
@@ -546,7 +559,8 @@ func runBehaviour(idx int, beh behaviour, opt options) ([]*caseRec, *behRec) {
 		s := snap{I: i, A: e.A, NCS: cc.nsent, NTS: cc.ntsent, Cfin: cc.cfin, Tfin: cc.tfin, Trst: cc.trst,
 			ML: len(o.mlog), DL: o.dials, CL: len(o.clog), TL: len(o.tlog), WCS: o.wireCS, WTS: o.wireTS, WTR: o.wireTR, WCR: o.wireCR,
 			CloseAt: o.closeAt, TfinPolite: cc.tfinPolite, PreDoneAt: cc.preDoneAt, LastSendAt: cc.lastSendAt, CfinAt: cc.cfinAt,
-			AddrDoneAt: cc.addrDoneAt, StallKinds: append([]string{}, cc.stallKinds...), Cancelled: cc.cancelled}
+			AddrDoneAt: cc.addrDoneAt, StallKinds: append([]string{}, cc.stallKinds...), Cancelled: cc.cancelled,
+			Tcl: cc.tcl, Crst: cc.crst, WCPL: cc.wcpl, AfterClose: cc.afterClose}
 		b.mu.Unlock()
 		cc.rec.Snaps = append(cc.rec.Snaps, s)
 		addStep(cc, e, s)
@@ -621,6 +635,18 @@ func runBehaviour(idx int, beh behaviour, opt options) ([]*caseRec, *behRec) {
 			}
 			t := cc.plan.Toks[cc.nsent]
 			cc.nsent++
+			if cc.tcl != "no" {
+				// the target has closed completely: give the RST that answers the proxy's previous write time to arrive, so that
+				// "the first write after the close is lost, the next one fails" holds as in the model
+				time.Sleep(40 * time.Millisecond)
+				if t.Kind == kData {
+					cc.afterClose++
+				}
+			}
+			if t.Kind == kData || t.Kind == kAddrPlus {
+				cc.wcpl += int64(len(cc.plan.Payloads[cc.ndataSent]))
+				cc.ndataSent++
+			}
 			n, err := cc.conn.Write(t.Bytes)
 			if err != nil {
 				cc.rec.WriteErrs++
@@ -671,6 +697,21 @@ func runBehaviour(idx int, beh behaviour, opt options) ([]*caseRec, *behRec) {
 			cc.trst = true
 			cc.tconn.SetLinger(0)
 			cc.tconn.Close()
+		case "TClose":
+			if !b.wait(await, func() bool { return cc.tconn != nil }) {
+				continue
+			}
+			// complete, orderly close after the half-close: the target application is gone; what the proxy writes from now
+			// on is answered by RST
+			cc.tcl = "closed"
+			cc.tconn.Close()
+		case "CRst":
+			if cc.conn == nil {
+				continue
+			}
+			cc.crst = true
+			cc.conn.SetLinger(0)
+			cc.conn.Close()
 		case "CloseListener":
 			br.ListenerClosedByScript = true
 			b.mu.Lock()
@@ -711,7 +752,7 @@ func runBehaviour(idx int, beh behaviour, opt options) ([]*caseRec, *behRec) {
 		if !accepted {
 			cc.rec.Reset = true
 		} else {
-			if !cc.cfin && !b.wait(time.Duration(opt.holdMs)*time.Millisecond, func() bool { return b.get(c).handled }) {
+			if !cc.cfin && !cc.crst && !b.wait(time.Duration(opt.holdMs)*time.Millisecond, func() bool { return b.get(c).handled }) {
 				// the script never made this client half-close: it has now held the connection open for holdMs;
 				// record what it has seen so far, then let it close (every client eventually does)
 				takeSnap(len(beh.Tr), event{A: "EndHold", C: c})
@@ -725,7 +766,7 @@ func runBehaviour(idx int, beh behaviour, opt options) ([]*caseRec, *behRec) {
 				b.mu.Lock()
 				tc := cc.tconn
 				b.mu.Unlock()
-				if tc != nil && !cc.tfin && !cc.trst {
+				if tc != nil && !cc.tfin && !cc.trst && cc.tcl == "no" {
 					takeSnap(len(beh.Tr), event{A: "EndTFin", C: c})
 					cc.tfin = true
 					cc.tfinPolite = true
@@ -781,6 +822,7 @@ func runBehaviour(idx int, beh behaviour, opt options) ([]*caseRec, *behRec) {
 		r.Mlog = append(r.Mlog, o.mlog...)
 		r.Dials = o.dials
 		r.Handled = o.handled
+		r.Tcl, r.Crst, r.WCPL, r.AfterClose = cc.tcl, cc.crst, cc.wcpl, cc.afterClose
 		r.Cancelled = cc.cancelled
 		r.DialAddrs = append(r.DialAddrs, o.dialAddrs...)
 		r.AcceptAt, r.CloseAt = o.acceptAt, o.closeAt
